@@ -238,9 +238,11 @@ func (s *ServerSession) doMsg(stream *Stream) error {
 		fallthrough
 	case base.RtmpTypeIdVideo:
 		if s.sessionStat.BaseType() != base.SessionBaseTypePubStr {
+			// 还没有成为pub session（比如对端握手后直接发送音视频数据），此时没有observer可以接收数据
 			err = nazaerrors.Wrap(base.ErrRtmpUnexpectedMsg)
+		} else {
+			s.avObserver.OnReadRtmpAvMsg(stream.toAvMsg())
 		}
-		s.avObserver.OnReadRtmpAvMsg(stream.toAvMsg())
 	default:
 		Log.Warnf("[%s] read unknown message. stream=%s, msg=%s", s.UniqueKey(), stream.toDebugString(), hex.EncodeToString(refForDebugLog))
 
